@@ -245,7 +245,10 @@ class KSKMConfig(FrozenBaseModel):
             and int(_config["request_policy"]["dns_ttl"]) == 0
         ):
             # Replace with the value configured to be used when signing the bundles
-            _config["request_policy"]["dns_ttl"] = _config["ksk_policy"]["ttl"]
+            # (ksk_policy.ttl is optional: fall back to its default when the section does not set it)
+            _config["request_policy"]["dns_ttl"] = _config["ksk_policy"].get(
+                "ttl", KSKPolicy.model_fields["ttl"].default
+            )
 
         return _config
 
